@@ -912,6 +912,9 @@ class World:
     def _mark_bc_edit(self, bent, kind, ctx):
         bent.meta["last_edit"] = self.step
         bent.meta["last_edit_kind"] = kind
+        side = ctx.op.get("a", {}).get("side")
+        if side:
+            bent.meta["last_edit_side"] = side
         ctx.written.add(bent.name)
         for s in self.sharers(bent.name):
             ctx.i3.append(s)
@@ -1558,6 +1561,22 @@ class World:
             if "I5" in self.inv:
                 self.check_solve_contract(vent, ret, M, RHS, x_exp, fake, mode, degenerate, ctx)
             elif self.prop == "C15" and M is not None and not degenerate:
+                # determinism: equal inputs (visible state of the variable, values of
+                # the terms) give the solution of exactly that system, whatever was
+                # solved with the same objects before
+                if finite and mode not in ("ext_mark", "ext_nan") and not has_bad \
+                        and np.all(np.isfinite(M.data)) and np.all(np.isfinite(RHS)):
+                    nd_ = len(ment.meta["faces"])
+                    shp_ = tuple(int(d) + 2 for d in ment.obj.dims)
+                    xe_ = np.reshape(x_exp, shp_)
+                    xc_ = np.array(xe_, copy=True)
+                    xc_[(slice(1, -1),) * nd_] = A.interior(vent.obj)
+                    r1 = O.backward_residual(M, RHS, xc_)
+                    r0 = O.backward_residual(M, RHS, xe_)
+                    self.oracle_runs["I7-solve-determinism"] += 1
+                    if np.isfinite(r0) and (not np.isfinite(r1) or r1 > max(1e-9, 1e3 * r0)):
+                        self.flag("C15", "I7", "solvePDE/result-depends-on-call-history",
+                                  {"var": vent.name, "residual": r1, "reference_residual": r0})
                 # frame condition of the expert-level entry point (C15)
                 Mk, Rk = A.snap_csr(M), A.akey(RHS)
                 try:
@@ -1828,8 +1847,18 @@ class World:
             elif not exact(A.interior(vent.obj), old_int):
                 self.flag("C12", "I6", "explicit/input-modified", {"var": vent.name})
             elif twin is not None and not degenerate:
-                # boundary values re-imposed: ghost layer == fresh ghost layer
+                # boundary values re-imposed: the configured relation holds face by face
+                # (formula written independently of boundary.py) ...
                 bent = self.get(e.meta["bc"], "b")
+                cls_, faces_ = self.mesh_model(ment)
+                if not O.radial_periodic(cls_, bent.meta["state"]) \
+                        and np.all(np.isfinite(A.interior(res))):
+                    badrel = O.bc_relation_failures(cls_, faces_, bent.meta["state"],
+                                                    A.full_array(res))
+                    if badrel:
+                        self.flag("C12", "I6", "explicit/bc-relation/axis%d/%s" % (badrel[0][0], badrel[0][1]),
+                                  {"var": e.name, "side": badrel[0][2], "residual": badrel[0][3]})
+                # ... and the ghost layer is the one a fresh variable would hold
                 try:
                     tw = O.build_twin(pf, ment.obj, bent.meta["state"], A.interior(res))
                     if not same(A.full_array(res), A.full_array(tw)):
@@ -2216,6 +2245,22 @@ class World:
             e.meta["orig"] = e.snap
             ctx.created.append(outs[0])
 
+    def op_term_mod(self, a, op, ctx):
+        """`keep = -term` / `keep = k*term`: the user stores the modified term and
+        hands the very same object to solvePDE step after step."""
+        te = self.get(a["t"], "t")
+        if te.meta["kind"] not in ("M", "R"):
+            raise Skip("only matrix / vector terms support negation and scaling")
+        if not a.get("neg") and a.get("scale") is None and not a.get("fmt"):
+            raise Skip("nothing to modify")
+        obj = O.apply_mods(te.obj, bool(a.get("neg")), a.get("scale"), a.get("fmt"))
+        e = self.add("t", op["out"], obj, {"kind": te.meta["kind"], "mesh": te.meta.get("mesh"),
+                                           "parents": (te.name,), "created_kind": "term_mod"})
+        e.meta["orig"] = e.snap
+        ctx.created.append(op["out"])
+        ctx.relation[te.name] = "operand"
+        self.probes["term:stored-modified-object"] += 1
+
     def check_transient(self, e, a, ctx):
         """I6: transient term == (alpha/dt on the diagonal, alpha*old/dt on the RHS)."""
         self.oracle_runs["I6"] += 1
@@ -2277,6 +2322,26 @@ class World:
         """In-place write into an object a previous op returned."""
         e = self.get(a["obj"], ("t", "f", "v", "b"))
         x = float(a.get("x", 7.5))
+        try:
+            self._scribble(e, a, x, ctx)
+        except (Skip, Violation):
+            raise
+        except Exception as ex:
+            ctx.status = "raised:" + type(ex).__name__
+            ro = [n for n, arr in (A.face_arrays(e.obj) if e.kind == "f" else
+                                   A.term_arrays(e.obj) if e.kind == "t" else [])
+                  if hasattr(arr, "flags") and not arr.flags.writeable]
+            if ro:
+                # an earlier call left this object's arrays read-only (e.g. a *eval
+                # whose user function raised): operators / builders never change
+                # their operands, and a result is the user's to modify
+                det = {"obj": e.name, "arrays": ro[:3], "exc": repr(ex)}
+                self.flag("C14", "I2", "operand-left-unwritable/%s" % e.kind, det)
+                self.flag("C15", "I1", "scribble/raises-on-valid-edit/%s" % e.kind, det)
+        ctx.written.add(e.name)
+        self.probes["scribble:" + e.kind] += 1
+
+    def _scribble(self, e, a, x, ctx):
         if e.kind == "t":
             arrs = [arr for _, arr in A.term_arrays(e.obj)
                     if arr.dtype.kind == "f" and arr.size]
@@ -2309,8 +2374,6 @@ class World:
             face = getattr(e.obj, sides[int(a.get("i", 0)) % len(sides)])
             face.c[...] = np.asarray(face.c) * 0.5 + x
             self._mark_bc_edit(e, "scribble", ctx)
-        ctx.written.add(e.name)
-        self.probes["scribble:" + e.kind] += 1
 
     def op_drop(self, a, op, ctx):
         for n in a["names"]:
